@@ -332,6 +332,76 @@ Example ex_collision_fixed :
   read_emitted ex_arity true 8 ex_tbl 37 [TClass 14] 100 = (DConst (TClass 10), true).
 Proof. reflexivity. Qed.
 
+(* Method calls.  A method (any kind but a property) declared in a class of the chain -- the instance's own class or
+   a generic base, the base's arguments substituted along the chain -- with ONE signature that accepts the call, called
+   on an instance whose values for the declaring class's parameters are single bindings (one view; with several
+   bindings the return type is converted once per view and only Optimize re-merges the results): B's stub gives
+   y = x.m(args) the declared return type under the instance's substitution.  The return type may mention the type
+   parameters anywhere, also directly below a Union ([dwf]: what the pyi parser produces).  Both variants. *)
+Theorem method_call_result : forall (arity : cid -> nat) (acc : ty -> ty -> bool) (fuel : nat) (tbl : ctable) (c : cid)
+                                    (ps : list ty) (name : N) (kps : list ty) (mk : mkind) (s : sig) (dret : dty) (cl : call),
+  arity type_id = 1%nat -> arity tuple_id = 1%nat ->
+  simple_tbl tbl = true ->
+  tfind_preload name (tchain fuel tbl c ps) = None ->
+  tfind_first name (tchain fuel tbl c ps) = Some (kps, MMethod mk [(s, dret)]) ->
+  mk <> KProperty ->
+  forallb single_ty kps = true -> dwf arity dret = true ->
+  sig_accepts acc s cl = true ->
+  wf_top arity (subst_ty kps dret) = true ->
+  snd (mcall_emitted arity acc fuel tbl c ps name cl) = true /\
+  nf (def_ty (fst (mcall_emitted arity acc fuel tbl c ps name cl))) = nf (subst_ty kps dret).
+Proof.
+  intros arity acc fuel tbl c ps name kps mk s dret cl H1 H2.
+  exact (method_call_result_lemma arity H1 H2 acc fuel tbl c ps name kps mk s dret cl).
+Qed.
+Print Assumptions method_call_result.
+
+(* the same for a property whose return type mentions the type parameters *)
+Theorem property_typevar_read : forall (arity : cid -> nat) (fixed : bool) (fuel : nat) (tbl : ctable) (c : cid)
+                                       (ps : list ty) (name : N) (kps : list ty) (s : sig) (dret : dty),
+  arity type_id = 1%nat -> arity tuple_id = 1%nat ->
+  simple_tbl tbl = true ->
+  tfind_preload name (tchain fuel tbl c ps) = None ->
+  tfind_first name (tchain fuel tbl c ps) = Some (kps, MMethod KProperty [(s, dret)]) ->
+  forallb single_ty kps = true -> dwf arity dret = true ->
+  wf_top arity (subst_ty kps dret) = true ->
+  snd (read_emitted arity fixed fuel tbl c ps name) = true /\
+  nf (def_ty (fst (read_emitted arity fixed fuel tbl c ps name))) = nf (subst_ty kps dret).
+Proof.
+  intros arity fixed fuel tbl c ps name kps s dret H1 H2.
+  exact (property_read_lemma arity H1 H2 fixed fuel tbl c ps name kps s dret).
+Qed.
+Print Assumptions property_typevar_read.
+
+(* Attribute types with type parameters BELOW a container or tuple (list[T], dict[str, list[T]], tuple[T, S],
+   list[Union[set[T], None]], ...; no parameter directly below a Union on this path), any parameter values (unions
+   included, only not empty), declared anywhere in the chain: the TypeVar instances the conversion leaves below the
+   container are resolved by output.py (full name; JoinTypes is idempotent), so under BOTH variants of _filter_var the
+   emitted type is the declared type under the instance's substitution. *)
+Theorem attr_nested_typevar_read : forall (arity : cid -> nat) (fixed : bool) (fuel : nat) (tbl : ctable) (c : cid)
+                                          (ps : list ty) (name : N) (kps : list ty) (d : dty),
+  arity type_id = 1%nat -> arity tuple_id = 1%nat ->
+  simple_tbl tbl = true ->
+  tfind_preload name (tchain fuel tbl c ps) = Some (kps, d) ->
+  container_like d = true -> dwf arity d = true -> no_param_union d = true ->
+  forallb (nonempty_ty arity) kps = true ->
+  wf_top arity (subst_ty kps d) = true ->
+  snd (read_emitted arity fixed fuel tbl c ps name) = true /\
+  nf (def_ty (fst (read_emitted arity fixed fuel tbl c ps name))) = nf (subst_ty kps d).
+Proof.
+  intros arity fixed fuel tbl c ps name kps d H1 H2.
+  exact (attr_nested_typevar_read_lemma arity H1 H2 fixed fuel tbl c ps name kps d).
+Qed.
+Print Assumptions attr_nested_typevar_read.
+
+(* the conversion with a substitution IS the conversion of the substituted type (the simulation the two theorems
+   above rest on), for every declared type the pyi parser produces *)
+Theorem dvar_is_conv_of_subst : forall (arity : cid -> nat) (ps : list ty) (d : dty),
+  dwf arity d = true ->
+  dvar arity (inst_env arity ps) d = conv_var arity (subst_ty ps d).
+Proof. intros arity ps d H. exact (proj1 (dvar_subst arity ps d H)). Qed.
+Print Assumptions dvar_is_conv_of_subst.
+
 (* ---- non-vacuity of the declaration theorems ---- *)
 
 (* def f(a0: int, /, a1: str = ..., *args: int, a2: float, a3: bytes = ..., **kw: str) -> list[int]
@@ -387,3 +457,36 @@ Example ex_method_views :   (* def m(self) -> list[T] on C4[Optional[bytes], int
 Proof. reflexivity. Qed.
 Example ex_reexport : reexport_class builtin_arity 33 = DConst (TGeneric type_id [TClass 33]).
 Proof. reflexivity. Qed.
+
+(* the hypotheses of method_call_result / attr_nested_typevar_read on a generic base:
+     class C4(Generic[T, S]):  m0: dict[str, list[T]];  def m1(self, a0: int) -> Union[tuple[S, T], None]
+     class C5(C4[int, T], Generic[T])          x: C5[list[bytes]]  *)
+Definition ex_tbl2 : ctable :=
+  [ mkC 36 [1; 2] None
+      [(100, MConst (DGeneric 7 [DGround (TClass 11); DGeneric 6 [DParam 0]]));
+       (101, MMethod KMethod [(mkSig [mkParam 10 PosOrKw false (TClass 10)] None None TAny,
+                               DUnion [DTuple [DParam 1; DParam 0]; DGround (TClass none_id)])])];
+    mkC 37 [1] (Some (36, [DGround (TClass 10); DParam 0])) [] ].
+Example ex_method_hyps :
+  simple_tbl ex_tbl2 = true /\
+  tfind_preload 101 (tchain 8 ex_tbl2 37 [TGeneric 6 [TClass 14]]) = None /\
+  tfind_first 101 (tchain 8 ex_tbl2 37 [TGeneric 6 [TClass 14]]) =
+    Some ([TClass 10; TGeneric 6 [TClass 14]],
+          MMethod KMethod [(mkSig [mkParam 10 PosOrKw false (TClass 10)] None None TAny,
+                            DUnion [DTuple [DParam 1; DParam 0]; DGround (TClass none_id)])]) /\
+  forallb single_ty [TClass 10; TGeneric 6 [TClass 14]] = true /\
+  dwf ex_arity (DUnion [DTuple [DParam 1; DParam 0]; DGround (TClass none_id)]) = true /\
+  wf_top ex_arity (subst_ty [TClass 10; TGeneric 6 [TClass 14]] (DUnion [DTuple [DParam 1; DParam 0]; DGround (TClass none_id)])) = true /\
+  mcall_emitted ex_arity ex_acc 8 ex_tbl2 37 [TGeneric 6 [TClass 14]] 101 (mkCall [TClass 10] []) =
+    (DConst (TUnion [TTuple [TGeneric 6 [TClass 14]; TClass 10]; TClass none_id]), true).
+Proof. vm_compute. repeat split; reflexivity. Qed.
+Example ex_nested_attr_hyps :
+  tfind_preload 100 (tchain 8 ex_tbl2 37 [TUnion [TClass 14; TClass 11]]) =
+    Some ([TClass 10; TUnion [TClass 14; TClass 11]], DGeneric 7 [DGround (TClass 11); DGeneric 6 [DParam 0]]) /\
+  no_param_union (DGeneric 7 [DGround (TClass 11); DGeneric 6 [DParam 0]]) = true /\
+  forallb (nonempty_ty ex_arity) [TClass 10; TUnion [TClass 14; TClass 11]] = true /\
+  read_emitted ex_arity false 8 ex_tbl2 37 [TUnion [TClass 14; TClass 11]] 100 =
+    (DConst (TGeneric 7 [TClass 11; TGeneric 6 [TClass 10]]), true) /\
+  read_emitted ex_arity true 8 ex_tbl2 37 [TUnion [TClass 14; TClass 11]] 100 =
+    (DConst (TGeneric 7 [TClass 11; TGeneric 6 [TClass 10]]), true).
+Proof. vm_compute. repeat split; reflexivity. Qed.
